@@ -39,7 +39,12 @@ fn build_archive(rng: &mut impl Rng, cfg: &Cfg) -> (Vec<u8>, serde_json::Value) 
         if rng.gen_bool(0.35) {
             let k = rng.gen_range(1..=(specs.len() - i).min(3));
             let mut sb = SolidEntryBuilder::new(cfg.options()).unwrap();
-            if rng.gen_bool(0.7) { sb.add_extra_chunk(libpna::verif::raw_chunk(*b"soLd", &bytes(rng, 5))); }
+            // block-level unknown chunks: every combination of the ancillary / safe-to-copy letter cases
+            for _ in 0..[0usize, 1, 1, 2][rng.gen_range(0..4)] {
+                let t = [*b"soLd", *b"soLD", *b"SoLd", *b"SoLD", gen::gen_private_type(rng)][rng.gen_range(0..5)];
+                let n = rng.gen_range(0..6);
+                sb.add_extra_chunk(libpna::verif::raw_chunk(t, &bytes(rng, n)));
+            }
             for e in &specs[i..i + k] { sb.add_entry(e.build(&Cfg::plain()).unwrap()).unwrap(); }
             a.add_entry(sb.build().unwrap()).unwrap();
             layout.push(format!("solid{k}"));
@@ -119,6 +124,7 @@ pub fn edit(ctx: &mut Ctx) {
         let pats: Vec<&str> = (0..npat).map(|_| PATTERNS[rng.gen_range(0..PATTERNS.len())]).collect();
         let sel = glob_sel(&pats, &names);
         let mut args: Vec<String> = vec![];
+        let mut chown_expect: Option<(Option<(u64, String)>, Option<(u64, String)>)> = None;
         let cmd: &str;
         let model_req: String;
         match rng.gen_range(0..6) {
@@ -159,6 +165,7 @@ pub fn edit(ctx: &mut Ctx) {
                 let (uu, gg): (Option<&str>, Option<&str>) = if let Some((a, b)) = spec.split_once(':') { ((!a.is_empty()).then_some(a), (!b.is_empty()).then_some(b)) } else { (Some(spec.as_str()), None) };
                 let uo = uu.and_then(lookup_user).map(|(i, n)| format!("{i}/{}", hexw(n.as_bytes()))).unwrap_or("-".into());
                 let go = gg.and_then(lookup_group).map(|(i, n)| format!("{i}/{}", hexw(n.as_bytes()))).unwrap_or("-".into());
+                chown_expect = Some((uu.and_then(lookup_user), gg.and_then(lookup_group)));
                 args.extend(["experimental", "chown", "a.pna"].map(String::from));
                 args.push(spec.clone());
                 for p in &pats { args.push(p.to_string()); }
@@ -235,7 +242,14 @@ pub fn edit(ctx: &mut Ctx) {
         } else {
             for (b, a) in kept.iter().zip(fa.iter()) {
                 let selected = cmd == "strip" || sel.contains(&b.name);
-                let diffs = if selected { frame_eq(b, a, cmd) } else { if *b == a { vec![] } else { vec!["unselected entry changed"] } };
+                let mut diffs = if selected { frame_eq(b, a, cmd) } else { if *b == a { vec![] } else { vec!["unselected entry changed"] } };
+                if selected && cmd == "chown" {
+                    // target: the named half is set (when the name resolves), the other half is untouched
+                    if let (Some((eu, eg)), Some(ob)) = (&chown_expect, &b.owner) {
+                        let want = (eu.as_ref().map(|x| x.0).unwrap_or(ob.0), eu.as_ref().map(|x| x.1.clone()).unwrap_or(ob.1.clone()), eg.as_ref().map(|x| x.0).unwrap_or(ob.2), eg.as_ref().map(|x| x.1.clone()).unwrap_or(ob.3.clone()));
+                        if a.owner.as_ref() != Some(&want) { diffs.push("owner differs from the requested change (ids/names of the half that was not named, or wrong ids)"); }
+                    } else if b.owner.is_none() && a.owner.is_some() { diffs.push("owner invented"); }
+                }
                 if !diffs.is_empty() {
                     ctx.violation("C10", "an editing command changed more than the attribute it names", json!({"case":attrs,"entry":b.name,"selected":selected,"changed":diffs}));
                     if diffs.contains(&"private chunks") { ctx.violation("C13", "an editing command dropped unknown chunks of an entry", json!({"case":attrs,"entry":b.name})); }
